@@ -89,7 +89,7 @@ type Interp struct {
 }
 
 func newInterp(prog *ssa.Program, ex *Explorer) *Interp {
-	in := &Interp{prog: prog, globals: map[*ssa.Global]*Value{}, ex: ex, maxStep: 20_000_000,
+	in := &Interp{prog: prog, globals: map[*ssa.Global]*Value{}, ex: ex, maxStep: 3_000_000,
 		mutexes: map[*Value]*mutexState{}, funcsSeen: ex.funcsSeen, tickBudget: -1}
 	main := &G{id: 0, name: "main", wake: make(chan struct{}, 1), started: true}
 	in.gs = []*G{main}
